@@ -15,6 +15,7 @@
   outside the model (`badLayout`).
 -/
 import Pdlv.Java
+import Pdlv.JavaStruct
 import Pdlv.Resolve
 
 namespace Pdlv
@@ -68,7 +69,7 @@ def fromPayload (c : Cfg) : Node → Value → Dec (String × Value)
     let pbytes := payloadOf pv
     if pbytes.length ≥ 2 ^ 31 then .panic .badLayout
     else
-      (Java.decItems c.e items pbytes DState.empty).bind fun (st, rest) =>
+      (Java.decItemsS c.e items pbytes DState.empty).bind fun (st, rest) =>
         let copied := pv.fields.filter fun (k, _) => k != "payload" && !(cs.any (·.1 == k))
         let v := assemble st copied
         if items.hasPayload then
@@ -86,7 +87,7 @@ def parseAll (c : Cfg) : Node → Bytes → Dec (String × Value)
   | .mk (.root nm items) fb ks, bs =>
     if bs.length ≥ 2 ^ 31 then .panic .badLayout
     else
-      (Java.decItems c.e items bs DState.empty).bind fun (st, rest) =>
+      (Java.decItemsS c.e items bs DState.empty).bind fun (st, rest) =>
         let v := assemble st []
         (if items.hasPayload then dispatch c nm fb v ks else .ok (nm, v)).bind fun r =>
           if rest.isEmpty then .ok r else .err .trailingBytes
